@@ -1419,6 +1419,10 @@ func (d *Data) ServeHTTP(uuid dvid.UUID, ctx *datastore.VersionedCtx, w http.Res
 
 	case "blocks":
 		// GET <api URL>/node/<UUID>/<data name>/blocks/<coord>/<offset>[?compression=...]
+		if len(parts) < 6 {
+			server.BadRequest(w, r, "%q must be followed by size/offset", parts[3])
+			return
+		}
 		sizeStr, offsetStr := parts[4], parts[5]
 
 		if throttle := queryStrings.Get("throttle"); throttle == "on" || throttle == "true" {
